@@ -55,28 +55,43 @@ impl Server {
             }
             None => (inner.clone(), None),
         };
-        let port = free_port();
-        let addr: SocketAddr = format!("127.0.0.1:{}", port).parse().unwrap();
         let cfg = MemcacheServerConfig::new(timeout_secs, conn_limit, item_limit, 128);
         let rt = tokio::runtime::Builder::new_multi_thread().worker_threads(workers).enable_all().build().unwrap();
-        let mut server = MemcacheTcpServer::new(cfg, store);
-        rt.spawn(async move {
-            let _ = server.run(addr).await;
-        });
-        // wait until it listens
+        let mut attempt = 0;
+        let done0 = hook::done();
+        let addr = loop {
+            let port = free_port();
+            let addr: SocketAddr = format!("127.0.0.1:{}", port).parse().unwrap();
+            let mut server = MemcacheTcpServer::new(cfg, store.clone());
+            let task = rt.spawn(async move {
+                let _ = server.run(addr).await;
+            });
+            // wait until it listens
+            let t0 = Instant::now();
+            let mut up = false;
+            while t0.elapsed() < Duration::from_secs(10) {
+                if let Ok(s) = TcpStream::connect_timeout(&addr, Duration::from_millis(500)) {
+                    drop(s);
+                    up = true;
+                    break;
+                }
+                std::thread::sleep(Duration::from_millis(2));
+            }
+            if up {
+                break addr;
+            }
+            task.abort();
+            attempt += 1;
+            if attempt >= 5 {
+                panic!("server did not start on 5 ports");
+            }
+        };
+        // let the probe connection be accepted, read to its end and closed
         let t0 = Instant::now();
-        loop {
-            if let Ok(s) = TcpStream::connect_timeout(&addr, Duration::from_millis(200)) {
-                drop(s);
-                break;
-            }
-            if t0.elapsed() > Duration::from_secs(5) {
-                panic!("server did not start");
-            }
-            std::thread::sleep(Duration::from_millis(2));
+        while hook::done() == done0 && t0.elapsed() < Duration::from_secs(10) {
+            std::thread::sleep(Duration::from_millis(1));
         }
-        // let the probe connection be accepted and closed
-        std::thread::sleep(Duration::from_millis(20));
+        std::thread::sleep(Duration::from_millis(2));
         Server { clock, inner, policy, victims, rt: Some(rt), addr }
     }
 
@@ -191,7 +206,7 @@ pub struct Driver {
     pub stuck: u64,
 }
 
-pub const WAIT: Duration = Duration::from_secs(4);
+pub const WAIT: Duration = Duration::from_secs(15);
 
 impl Driver {
     pub fn new(server: Server) -> Driver {
